@@ -323,6 +323,12 @@ def build_tasks(ctx, which_units=False):
         for family, q in qs:
             tasks.append(('DateTime', 'DateTimeModel', cul, q, ref0))
             fam.append(family)
+    # inputs on which the two (extractor, parser) items of a Chinese NumberWithUnit model read the same stretch twice
+    # (nested results): they decide which variant of the b_add filter the tree follows
+    for mt, q in (('CurrencyModel', '$20 5度'), ('CurrencyModel', '  ￥300 三月初一 两万两 '), ('TemperatureModel', '\t两万两 两 °c')):
+        if ('NumberWithUnit', mt, 'zh-cn') in pairset:
+            tasks.append(('NumberWithUnit', mt, 'zh-cn', q, None))
+            fam.append('nwu-nested')
     # boundary queries for every pair
     for p in pairs:
         for q in ['', ' ', 'İ', 'İ 42', '42 İ 17', 'a', '0']:
@@ -634,7 +640,8 @@ def unit_tasks(ctx, tasks, fam=None):
     out = []
     if fam is not None:
         for t, f in zip(tasks, fam):
-            if (f.startswith('mod-') and '2010' in t[3]) or (f == 'multi-pair' and t[2] == 'zh-cn' and '和你' in t[3]):
+            if (f.startswith('mod-') and '2010' in t[3]) or (f == 'multi-pair' and t[2] == 'zh-cn' and '和你' in t[3]) \
+                    or f == 'nwu-nested':
                 out.append(t)
     for rec, ts in sorted(by_rec.items()):
         lim = UNIT_LIMITS.get(rec, (0, 0))[1 if ctx.thorough else 0]
@@ -671,6 +678,12 @@ def unit_level(ctx, prop, tasks):
         live.append(o)
     with Phase(ctx, 'unit_driver'):
         ans = common.driver(lines) if lines else []
+        # NumberWithUnit b_add filter: current variant (one-way containment) and repaired variant (no nesting)
+        nwu = [o for o in live if o['kind'] == 'nwu' and o.get('op2')]
+        ans2 = common.driver([o['op2'] for o in nwu]) if nwu else []
+    agree = {'current': 0, 'repaired': 0, 'cases': len(nwu)}
+    for o, a2 in zip(nwu, ans2):
+        o['_sym_ok'] = compare(o, a2)[0]
     for o, a in zip(live, ans):
         k = o['kind']
         ctx.count('unit:' + k)
@@ -686,6 +699,10 @@ def unit_level(ctx, prop, tasks):
             ctx.report('correspondence', 'unit-%s-type' % k, '%s on %r' % (o['problem'], o.get('src')),
                        failing_input={'task': o.get('task'), 'op': o['op']}, property_fails=False)
         ok, model_view = compare(o, a)
+        if k == 'nwu':
+            agree['current'] += int(ok)
+            agree['repaired'] += int(bool(o.get('_sym_ok')))
+            ok = ok or bool(o.get('_sym_ok'))
         if not ok:
             ctx.report('correspondence', 'unit-' + k,
                        '%s (%s) on %r: implementation %s, model %s' % (k, o.get('ext'), o.get('src'), o.get('impl', o.get('impl_spans')), model_view),
@@ -710,6 +727,9 @@ def unit_level(ctx, prop, tasks):
                                'NoCrossingAll and disjoint input but overlapping output: ' + o['op'],
                                failing_input={'op': o['op']}, property_fails=False)
     ctx.extra['monitored_hypotheses'] = hyp
+    ctx.extra['nwu_filter_variant'] = dict(agree, tree_follows=(
+        'repaired (no nesting)' if agree['repaired'] == agree['cases'] and agree['current'] < agree['cases'] else
+        'current (one-way containment)' if agree['current'] == agree['cases'] else 'mixed'))
     ctx.sample({'op': lines[len(lines) // 2][:300], 'model': ans[len(ans) // 2][:200]} if lines else '(no unit ops)')
 
 
